@@ -104,7 +104,9 @@ pub assume_specification[ std::fs::OpenOptions::truncate ](o: &mut std::fs::Open
 /// arguments in one body); a successful open yields a file identified by path and flags.
 #[verifier::allow(undeclared_external_trait)]
 pub assume_specification<P: AsRef<std::path::Path>>[ std::fs::OpenOptions::open ](o: &std::fs::OpenOptions, p: P) -> (r: Result<std::fs::File, std::io::Error>)
-    ensures r is Ok ==> file_flags(&r->Ok_0) == oo_flags(o) && file_path(&r->Ok_0) == aspath::<P>(p);
+    ensures r is Ok ==> file_flags(&r->Ok_0) == oo_flags(o) && file_path(&r->Ok_0) == aspath::<P>(p) && opened_token();
+/// token fact: a file has been opened (created) with success in this call - only `OpenOptions::open` establishes it
+pub uninterp spec fn opened_token() -> bool;
 
 #[verifier::allow(undeclared_external_trait)]
 pub assume_specification<P: AsRef<std::path::Path>, Q: AsRef<std::path::Path>>[ std::fs::rename ](from: P, to: Q) -> (r: Result<(), std::io::Error>)
